@@ -100,6 +100,12 @@ impl MsgGen {
             let cap = lim.max_len.min((cs as usize).saturating_mul(lim.max_chunks));
             let len = if rng.chance(1, 2) { llen.min(cap) } else { gen_len(rng, cs, lim) };
             let msid = if rng.chance(1, 10) { *rng.pick(&MSID_TABLE) } else { msid };
+            // now and then a DIFFERENT type id that the library maps to the same chunk stream, with
+            // everything else equal (same length, same stream): only the type id separates the headers
+            let ty = if rng.chance(1, 5) {
+                let sib: &[u8] = match ty { 2..=6 => &[2, 3, 4, 5, 6], 18 | 19 => &[18, 19], 8 | 9 | 1 => &[ty], _ => &[20, 15, 17, 0, 22, 255, 7, 10] };
+                *rng.pick(sib)
+            } else { ty };
             self.hist[i] = (ty, msid, ts, len, ts.wrapping_sub(lts));
             M { ty, msid, ts, data: gen_data(rng, len) }
         } else {
@@ -408,7 +414,12 @@ struct InFlight {
 
 /// One foreign stream.  interleave: chunks of messages on different csids may alternate.
 pub fn run_foreign(run: &mut Run, rng: &mut Rng, nmsgs: usize, lim: &Limits, interleave: bool) {
-    let ncs = rng.range(if interleave { 2 } else { 1 }, 4) as usize;
+    // one run in ten uses MANY chunk streams (the receiver must remember a header per csid, for all 65 598 of them)
+    let many = !interleave && rng.chance(1, 10);
+    let ncs = if many { rng.range(65, 140) as usize } else { rng.range(if interleave { 2 } else { 1 }, 4) as usize };
+    let nmsgs = if many { ncs * 2 + 10 } else { nmsgs };
+    let tiny = Limits { max_len: 6, max_chunks: 2 };
+    let lim = if many { &tiny } else { lim };
     let mut csids: Vec<u32> = Vec::new();
     while csids.len() < ncs {
         let c = if rng.chance(4, 5) { *rng.pick(&CSID_TABLE) } else { rng.range(2, 65599) as u32 };
@@ -431,7 +442,7 @@ pub fn run_foreign(run: &mut Run, rng: &mut Rng, nmsgs: usize, lim: &Limits, int
         if start {
             started += 1;
             let free: Vec<u32> = csids.iter().cloned().filter(|c| !fl.iter().any(|(fc, _)| fc == c)).collect();
-            let c = *rng.pick(&free);
+            let c = if many && started <= csids.len() { csids[started - 1] } else { *rng.pick(&free) };
             let setcs = if rng.below(12) < p_cs { Some(gen_cs(rng)) } else { None };
             let mut m = match setcs {
                 Some(sz) => M { ty: 1, msid: 0, ts: *rng.pick(&TS_TABLE), data: sz.to_be_bytes().to_vec() },
